@@ -79,7 +79,176 @@ class Sizes:
         """LinS for size() of an object of class `cls`; `field(attr)` gives the symbolic value of self.attr."""
         owner, m = self.size_method(cls)
         body = [s for s in m.body if not (isinstance(s, ast.Expr) and isinstance(s.value, ast.Constant))]
-        return self._size_body(body, cls, field, st)
+        saved = dict(self.table_domains)
+        try:
+            return self._size_body(body, cls, field, st)
+        except AnalysisError as e:
+            self.table_domains = saved
+            r = self.size_by_walk(cls, m, field, st)
+            if r is None:
+                raise e
+            return r
+
+    # -- size() by symbolic evaluation of the method (helpers, class constants, module tables followed) -----------------
+    def walker(self):
+        w = self.__dict__.get('_walker')
+        if w is None:
+            w = self._walker = Walker(self.facts, inline='all')
+        return w
+
+    def size_by_walk(self, cls, m, field, st):
+        """size() of `cls` evaluated as an effect-free function of self: every helper it calls (module-level function, method
+        of the class, class constant, module table) is followed; None when some path has an effect or is not understood."""
+        SELF = ('sym', 'self:' + cls)
+        s2 = PathState()
+        for attr, _ in self.facts.full_attr_order(cls):
+            val = field(attr)
+            if is_const(val):
+                s2.fact(('attr', SELF, attr))['eq'] = val
+        s2.fact(SELF)['isa'].add(cls)
+        v = self.walker().eval_fn(m, (SELF,), (), s2, {})
+        if v is None:
+            return None
+        v = self.resolve(v, s2, {SELF: cls})
+
+        def back(t):
+            if t[0] == 'attr' and t[1] == SELF:
+                return field(t[2])
+            return t
+        v = map_value(v, back)
+        if contains_value(v, SELF):
+            return None
+        return self.lin_table(v, cls, st)
+
+    def lin_table(self, v, cls, st):
+        """lin() that knows the name-indexed size table: T[key] with T a constant dict of integers."""
+        if v[0] == 'bin' and v[1] == '*':
+            a, b = self.lin_table(v[2], cls, st), self.lin_table(v[3], cls, st)
+            if a.is_const():
+                return b.scale(a.const)
+            if b.is_const():
+                return a.scale(b.const)
+            if len(a.terms) == 1 and a.const == 0 and list(a.terms.values()) == [1] and len(b.terms) == 1 and b.const == 0:
+                (x,), (y,) = a.terms.keys(), b.terms.keys()
+                (yk, yv), = b.terms.items()
+                return LinS({('mul',) + tuple(sorted([x, y], key=repr)): yv})
+            return LinS({('mul', repr(a), repr(b)): 1})
+        t = self.int_table_lookup(v)
+        if t is not None:
+            table, key = t
+            if is_const(key):
+                if key[1] not in table:
+                    raise AnalysisError('size() of {}: key {!r} not in size table'.format(cls, key[1]))
+                return LinS(const=table[key[1]])
+            self.table_domains[cls] = list(table.keys())
+            return LinS({('tablesize', cls, show(key)): 1})
+        return self.lin(v, st)
+
+    def int_table_lookup(self, v):
+        """(dict of ints, key value) for `T[key]` over a constant table whose values are integers (after following what each
+        entry's size is: an int, struct.calcsize of a constant format, a Struct's .size)."""
+        if v[0] != 'sub':
+            return None
+        base, key = v[1], v[2]
+        table = None
+        if base[0] == 'name' and isinstance(self.facts.consts.get(base[1]), dict):
+            table = self.facts.consts[base[1]]
+        elif is_const(base) and isinstance(base[1], dict):
+            table = base[1]
+        elif base[0] == 'name' and base[1] in self.facts.assign_nodes and self.facts.assign_nodes[base[1]] is not None:
+            # a module-level table computed by an expression (a helper over another table): evaluate that expression
+            node = self.facts.assign_nodes[base[1]]
+            val = getattr(node, 'value', None)
+            if val is not None:
+                try:
+                    tv = self.resolve(self.walker().sym(val, PathState()), None)
+                except AnalysisError:
+                    return None
+                if tv[0] in ('dict',) or (is_const(tv) and isinstance(tv[1], dict)):
+                    return self.int_table_lookup(('sub', tv, key))
+        elif base[0] == 'dict' and all(is_const(k) for k, _ in base[1]):
+            table = {}
+            for k, val in base[1]:
+                lv = self.lin(val, None)
+                if not lv.is_const():
+                    return None
+                table[k[1]] = lv.const
+        if not isinstance(table, dict) or not table or not all(isinstance(x, int) and not isinstance(x, bool) for x in table.values()):
+            return None
+        return table, key
+
+    def classes_of(self, recv, st, known):
+        if recv in known:
+            return [known[recv]]
+        if recv[0] == 'new' and recv[1] in self.facts.classes:
+            return [recv[1]]
+        return self.candidate_classes(recv, st) or []
+
+    def resolve(self, v, st, known=None):
+        """Follow what a symbolic value still hides: calls of module-level functions and of methods on objects of known class
+        (evaluated in place when effect-free), module constants, fields of freshly constructed objects."""
+        known = known or {}
+        facts = self.facts
+        w = self.walker()
+        depth = self.__dict__.setdefault('_resolve_depth', [0])
+
+        def step(t):
+            k = t[0]
+            if k == 'name' and len(t) == 2 and isinstance(facts.consts.get(t[1]), (int, str, bytes)) and not isinstance(facts.consts.get(t[1]), bool):
+                return C(facts.consts[t[1]])
+            if depth[0] > 6:
+                return t
+            if k == 'call' and len(t) == 4 and t[1] in facts.funcs and not any(a[0] == 'star' for a in t[2]):
+                depth[0] += 1
+                try:
+                    r = w.eval_fn(facts.funcs[t[1]], t[2], t[3], st or PathState(), {})
+                    return self.resolve(r, st, known) if r is not None else t
+                finally:
+                    depth[0] -= 1
+            if k == 'mcall' and len(t) >= 4 and t[2] not in ('size', '__class__') and isinstance(t[1], tuple):
+                classes = self.classes_of(t[1], st, known) if st is not None or t[1] in known or t[1][0] == 'new' else []
+                results = []
+                for c in classes:
+                    owner, m = facts.method(c, t[2])
+                    if m is None:
+                        return t
+                    depth[0] += 1
+                    try:
+                        s2 = (st or PathState()).clone()
+                        s2.fact(t[1])['isa'].add(c)
+                        r = w.eval_fn(m, (t[1],) + tuple(t[3]), t[4] if len(t) > 4 else (), s2, {})
+                    finally:
+                        depth[0] -= 1
+                    if r is None:
+                        return t
+                    k2 = dict(known)
+                    if t[1][0] != 'new':
+                        k2[t[1]] = c
+                    results.append(self.resolve(r, st, k2))
+                if results and all(r == results[0] for r in results[1:]):
+                    return results[0]
+                return t
+            if k == 'attr' and t[1][0] == 'new' and t[1][1] in facts.classes:
+                obj = t[1]
+                params = [p_ for p_, _ in facts.init_params(obj[1])]
+                bound = {}
+                for i, a in enumerate(obj[2]):
+                    if i < len(params):
+                        bound[params[i]] = a
+                for n, a in obj[3]:
+                    bound[n] = a
+                src = dict(facts.full_attr_order(obj[1])).get(t[2])
+                if src in bound:
+                    return bound[src]
+                owner_c, const = class_constant(facts, obj[1], t[2])
+                if const is not None:
+                    return const
+            if k == 'attr' and t[1] in known:
+                owner_c, const = class_constant(facts, known[t[1]], t[2])
+                if const is not None and t[2] not in dict(facts.full_attr_order(known[t[1]])):
+                    return const
+            return t
+        return map_value(v, step)
 
     def _size_body(self, body, cls, field, st):
         local = {}
@@ -174,7 +343,7 @@ class Sizes:
                     tuple(self._sym_self(a, field) for a in e.args), ())
         if isinstance(e, ast.Constant):
             return C(e.value)
-        return ('opaque', unparse(e))
+        raise AnalysisError('size(): expression outside the size algebra: {}'.format(unparse(e)))
 
     # -- symbolic value -> LinS --------------------------------------------------------------------------------
     def lin(self, v, st):
@@ -260,10 +429,17 @@ class Sizes:
             b = self.lin(('call', 'struct.calcsize', (v[2][0][3],), ()), st)
             if a == b:
                 return a
+        r = self.resolve(v, st)
+        if r != v:
+            return self.lin(r, st)
         return LinS({v: 1})
 
     def size(self, obj, st):
         """LinS of obj.size() for a symbolic object."""
+        if obj[0] in ('call', 'mcall') or (obj[0] == 'new' and any(isinstance(a, tuple) and a and a[0] in ('call', 'mcall', 'name') for a in obj[2])):
+            r = self.resolve(obj, st)
+            if r != obj:
+                return self.size(r, st)
         if obj[0] == 'new':
             cls = obj[1]
             params = [p for p, _ in self.facts.init_params(cls)]
@@ -333,6 +509,40 @@ class Sizes:
         if c == 'Item':
             return False
         return True
+
+
+def map_value(v, f):
+    """Bottom-up rewriting of a symbolic value (nested tuples)."""
+    if not isinstance(v, tuple):
+        return v
+    new = tuple(map_value(x, f) if isinstance(x, tuple) else x for x in v)
+    if new and isinstance(new[0], str):
+        return f(new)
+    return new
+
+
+def contains_value(v, x):
+    if v == x:
+        return True
+    return isinstance(v, tuple) and any(contains_value(y, x) for y in v if isinstance(y, tuple))
+
+
+def class_constant(facts, cls, attr):
+    """(owner class, constant value) of a class-level constant `attr = <literal>` visible on instances of cls."""
+    for c in facts.mro(cls):
+        node = facts.classes[c].node if hasattr(facts.classes[c], 'node') else None
+        if node is None:
+            continue
+        for st in node.body:
+            if isinstance(st, ast.Assign) and len(st.targets) == 1 and isinstance(st.targets[0], ast.Name) and st.targets[0].id == attr:
+                try:
+                    val = fold(st.value, facts.consts)
+                except NotConstant:
+                    return c, None
+                if isinstance(val, (int, str, bytes, dict, tuple)):
+                    return c, C(val)
+                return c, None
+    return None, None
 
 
 # -- per-path accounting -----------------------------------------------------------------------------------------
